@@ -572,3 +572,64 @@ mut("C08", "commit_only_when_updates_sent", "visibility is committed only when a
         }"""))
 mut("C08", "public_visibility_fields", "visibility list is publicly writable", ["ClientVisibility.added/private"],
     ("src/server/client_visibility.rs", "pub struct ClientVisibility {\n    /// List of entities", "pub struct ClientVisibility {\n    /// List of entities") if False else ("src/server/client_visibility.rs", "    added: EntityHashSet,", "    pub added: EntityHashSet,"))
+
+# ------------------------------------------------------------------ C10
+mut("C10", "split_inside_chunk", "message boundary checked per entity inside a related group", ["boundary-between-chunks"],
+    (MUTS, """            let mut mutations_size = 0;
+            for mutations in chunk {
+                mutations_size += mutations.ranges.size_with_components_size()?;
+            }
+""", """            let mut mutations_size = 0;
+            for mutations in chunk {
+                mutations_size += mutations.ranges.size_with_components_size()?;
+                if mutations_size > max_size {
+                    self.messages
+                        .push((mutate_index, body_size + header_size, chunks_range.clone()));
+                }
+            }
+"""))
+mut("C10", "related_groups_chunked_singly", "related groups are flattened into one-entity chunks", ["related-group-is-one-chunk"],
+    (MUTS, """        self.related
+            .iter()
+            .map(Vec::as_slice)
+            .chain(self.standalone.chunks(1))""", """        self.related
+            .iter()
+            .flat_map(|group| group.chunks(1))
+            .chain(self.standalone.chunks(1))"""))
+mut("C10", "standalone_two_per_chunk", "standalone entities are chunked in pairs", ["standalone-one-per-chunk"],
+    (MUTS, ".chain(self.standalone.chunks(1))", ".chain(self.standalone.chunks(2))"))
+mut("C10", "ack_list_only_first_entity", "only the first entity of a chunk is recorded for acknowledgement", ["ack-list"],
+    (MUTS, "entities.extend(chunk.iter().map(|mutations| mutations.entity));", "entities.extend(chunk.iter().take(1).map(|mutations| mutations.entity));") if False else
+    (MUTS, "            entities.extend(chunk.iter().map(|mutations| mutations.entity));\n", "            if body_size == 0 {\n                entities.extend(chunk.iter().map(|mutations| mutations.entity));\n            }\n"))
+mut("C10", "no_rebuild_before_collect", "relationship graphs are not rebuilt before collecting", ["rebuild-before-collect"],
+    ("src/server.rs", "    related_entities.rebuild_graphs();\n\n    for (_, mut updates, mut mutations, ..) in &mut clients {", "    for (_, mut updates, mut mutations, ..) in &mut clients {"),
+    ("src/server.rs", "    removal_buffer.clear();\n\n    send_messages(", "    removal_buffer.clear();\n    related_entities.rebuild_graphs();\n\n    send_messages("))
+mut("C10", "group_of_other_entity", "group looked up for the archetype's first entity", ["group-of-same-entity"],
+    ("src/server.rs", "let graph_index = related_entities.graph_index(entity.id());", "let graph_index = related_entities.graph_index(archetype.entities()[0].id());"))
+mut("C10", "grouped_entities_stored_standalone", "entities with a group are stored as standalone", ["add_entity/"],
+    (MUTS, """            Some(index) => {
+                self.related[index].push(mutations);
+                self.entity_location = Some(EntityLocation::Related { index });
+            }""", """            Some(index) if index > 1000 => {
+                self.related[index].push(mutations);
+                self.entity_location = Some(EntityLocation::Related { index });
+            }
+            Some(_) => {
+                self.entity_location = Some(EntityLocation::Standalone);
+                self.standalone.push(mutations);
+            }"""))
+mut("C10", "observer_for_replace_missing", "relationship replacement no longer updates the graph", ["OnReplace<C>"],
+    ("src/server/related_entities.rs", "        .add_observer(remove_relation::<C>)\n", ""))
+mut("C10", "remove_relation_does_not_mark_dirty", "removing a relation does not trigger a rebuild", ["remove_relation/marks-dirty"],
+    ("src/server/related_entities.rs", """        if self.is_orphan(source_node) {
+            self.remove_entity(source, source_node);
+        }
+
+        self.rebuild_needed = true;""", """        if self.is_orphan(source_node) {
+            self.remove_entity(source, source_node);
+            self.rebuild_needed = true;
+        }"""))
+mut("C10", "startup_scan_every_frame_after", "initial relation scan runs after replication", ["startup-scan"],
+    ("src/server/related_entities.rs", "                .before(super::send_replication)", "                .after(super::send_replication)"))
+mut("C10", "resize_only_first_client", "only clients with pending mutations get their group buffers resized", ["resize-every-client"],
+    ("src/server.rs", "        mutations.resize_related(related_entities.graphs_count());", "        if !updates.is_empty() {\n            mutations.resize_related(related_entities.graphs_count());\n        }"))
